@@ -82,6 +82,9 @@ class NullSink:
 
 class C13(Check):
     pid = "C13"
+    level_text = (
+        "Bounded exhaustive with run-time monitors on every BytesIO, read and chunk of the real code, plus tracemalloc on 400-buffer-long inputs."
+    )
     technique = (
         "exhaustive scope enumeration with run-time monitors on the real indexer/streamer: all small FASTA files and all 1-2 row "
         "scaffolds x a buffer-size set relative to width and fragment length; high-water marks of every library BytesIO, read and chunk; "
